@@ -27,6 +27,8 @@ PROFILES = {
         "legacy": dict(kwargs={"model": "legacy"}),
         "seasonmap": dict(kwargs={"settings": {"season": _ALT_SEASON, "weekday_weekend": _ALT_WEEK,
                                                "uncertainty_alpha": 0.05}}),
+        "weekmap": dict(kwargs={"settings": {"weekday_weekend": dict(_ALT_WEEK, friday="weekend", sunday="weekend")}},
+                        wants_weekend_regime=True),   # Fri+Sat+Sun weekend: a weekday/weekend split gets selected
         "dev_nosmooth": dict(kwargs={"settings": {"developer_mode": True, "allow_smooth_model": False}}),
         "dev_alphaall": dict(kwargs={"settings": {"developer_mode": True, "alpha_final_type": "all"}}),
         "dev_nogauss": dict(kwargs={"settings": {"developer_mode": True, "split_selection": {
@@ -51,9 +53,9 @@ PROFILES = {
         "nonsolar": dict(kwargs={"settings": {"train_features": ["temperature"], "seed": 3}}),
         "adaptive": dict(kwargs={"settings": {"seed": 2, "elasticnet": {
             "adaptive_weights": True, "adaptive_weight_max_iter": 8, "adaptive_weight_tol": 1e-4}}}),
-        "eqbins": dict(kwargs={"settings": {"seed": 4, "temperature_bin": {
-            "method": "equal_bin_width", "n_bins": 6, "bin_width": None, "include_edge_bins": False,
-            "edge_bin_rate": None, "edge_bin_percent": None}}}),
+        "adaptive_lowthr": dict(kwargs={"settings": {"seed": 2, "cvrmse_threshold": 0.01, "pnrmse_threshold": 0.01,
+                                                      "elasticnet": {"adaptive_weights": True, "adaptive_weight_max_iter": 6,
+                                                                     "adaptive_weight_tol": 1e-4}}}),
         "lowthr": dict(kwargs={"settings": {"seed": 5, "cvrmse_threshold": 0.01, "pnrmse_threshold": 0.01}}),
         "cvonly": dict(kwargs={"settings": {"seed": 6, "cvrmse_threshold": 0.01}}),   # misses CVRMSE only: acceptable
         "pnonly": dict(kwargs={"settings": {"seed": 6, "pnrmse_threshold": 0.01}}),   # misses PNRMSE only: acceptable
@@ -79,3 +81,7 @@ def make_model(em, fam: str, profile: str):
 
 def needs_ghi(fam: str, profile: str) -> bool:
     return bool(PROFILES[fam][profile].get("needs_ghi"))
+
+
+def wants_weekend_regime(fam: str, profile: str) -> bool:
+    return bool(PROFILES[fam][profile].get("wants_weekend_regime"))
